@@ -64,14 +64,14 @@ def normalise(toks):
             if j + 1 < len(toks) and re.match(r"^[a-z_][a-z0-9_]*$", toks[j]) and toks[j + 1] == ":" and (not out or out[-1] in (";", "local", "var", "entity") or
                                                                                                      (out and out[-1] not in (",", "[", "of", "oneof", "for", "from", "use", "reference", "|"))):
                 prev = out[-1] if out else ""
-                if prev in (";", "local", "var") or (len(out) >= 2 and out[-2] in ("function", "procedure", "entity")):
+                if prev in (";", "local", "var", "(") or (len(out) >= 2 and out[-2] in ("function", "procedure", "entity")):
                     names.append(toks[j])
                     k2 = j + 2
                     depth = 0
-                    while k2 < len(toks) and not (depth == 0 and toks[k2] in (";",)) :
-                        if toks[k2] in ("[", "{"):
+                    while k2 < len(toks) and not (depth == 0 and toks[k2] in (";", ")")):
+                        if toks[k2] in ("[", "{", "("):
                             depth += 1
-                        elif toks[k2] in ("]", "}"):
+                        elif toks[k2] in ("]", "}", ")"):
                             depth -= 1
                         k2 += 1
                     ty = toks[j + 2:k2]
@@ -101,7 +101,7 @@ END_KW = {"end_entity", "end_type", "end_function", "end_procedure", "end_rule",
 
 def declarations(text):
     """multiset of declarations (token tuples), schema headers and interface lines included"""
-    toks = normalise(tokens(text))
+    toks = [t for t in normalise(tokens(text, True)) if t not in "()"]
     # long string literals are split at dots into 'a.' + 'b': join them again
     merged = []
     for t in toks:
@@ -302,6 +302,7 @@ def main(tier, seed):
             hist["line_lengths"] += 1
             opts = [] if ll is None else ["-l", str(ll)]
             what = None
+            sig_split = None
             rc, outs, msg = pp(srcp, os.path.join(d, "o1_%s" % ll), opts)
             if rc != 0 or not outs:
                 what = "exppp %s fails on an accepted schema (status %d): %s" % (" ".join(opts), rc, msg[-200:])
@@ -328,6 +329,22 @@ def main(tier, seed):
                             what = "exppp %s fails on its own output (status %d)" % (" ".join(opts), rc2)
                         else:
                             again = "".join(open(o, encoding="latin-1").read() for o in outs2)
+                            def merged(ts):
+                                out_ = []
+                                for t_ in ts:
+                                    if t_ in "()":
+                                        continue
+                                    if t_.startswith("'") and len(out_) >= 2 and out_[-1] == "+" and out_[-2].startswith("'"):
+                                        out_.pop()
+                                        out_[-1] = out_[-1][:-1] + t_[1:]
+                                    else:
+                                        out_.append(t_)
+                                return out_
+                            if tokens(again, True) != tokens(printed, True) and merged(tokens(again, True)) == merged(tokens(printed, True)) and \
+                                    any(t_.startswith("'") for t_ in tokens(printed, True)) and re.search(r"'\s*\+\s*'", printed + again):
+                                sig_split = "split_string_reprinted_differently"
+                            else:
+                                sig_split = None
                             if tokens(again, True) != tokens(printed, True):
                                 ta, tb = tokens(printed, True), tokens(again, True)
                                 i = next((i for i, (p_, q_) in enumerate(zip(ta, tb)) if p_ != q_), min(len(ta), len(tb)))
@@ -336,8 +353,10 @@ def main(tier, seed):
                                 nontrivial += 1
             if what:
                 oracle_fail += 1
-                res.violation(what, {"input_file": save("c07-%s.exp" % tag, text), "replay": "%s %s <file>" % (exppp, " ".join(opts))})
-                break
+                res.violation(what, {"input_file": save("c07-%s.exp" % tag, text), "replay": "%s %s <file>" % (exppp, " ".join(opts))},
+                              signature=(sig_split if "again changes it" in what else None))
+                if not ("again changes it" in what and sig_split):
+                    break
         shutil.rmtree(d, ignore_errors=True)
         return first
 
